@@ -2,7 +2,7 @@
 use core::future::Future;
 use core::ops::{ControlFlow, Deref};
 use core::pin::Pin;
-use core::sync::atomic::{AtomicBool, Ordering};
+use core::sync::atomic::{AtomicBool, AtomicUsize, Ordering};
 use core::time::Duration;
 
 use alloc::boxed::Box;
@@ -272,6 +272,10 @@ where
     /// Is a transaction in progress?
     in_transaction: Arc<AtomicBool>,
 
+    /// The number of requests that were handed to the service and whose
+    /// response stream has not ended yet.
+    num_inflight_requests: Arc<AtomicUsize>,
+
     /// [`ServerMetrics`] describing the status of the server.
     metrics: Arc<ServerMetrics>,
 
@@ -325,6 +329,7 @@ where
         let config = Arc::new(ArcSwap::from_pointee(config));
         let idle_timer = IdleTimer::new();
         let in_transaction = Arc::new(AtomicBool::new(false));
+        let num_inflight_requests = Arc::new(AtomicUsize::new(0));
 
         // Place the ReadHalf of the stream into an Option so that we can take
         // it out (as we can't clone it and we can't place it into an Arc
@@ -353,6 +358,7 @@ where
             service,
             idle_timer,
             in_transaction,
+            num_inflight_requests,
             metrics,
             request_dispatcher,
         }
@@ -439,7 +445,8 @@ where
                     }
 
                     _ = sleep_until(self.idle_timer.idle_timeout_deadline(self.config.load().idle_timeout)) => {
-                        self.process_dns_idle_timeout(self.config.load().idle_timeout)
+                        let idle_timeout = self.config.load().idle_timeout;
+                        self.process_dns_idle_timeout(idle_timeout)
                     }
 
                     res = &mut msg_recv => {
@@ -640,18 +647,29 @@ where
     /// Disconnects the current connection of the timer is expired, flushing
     /// pending responses first.
     fn process_dns_idle_timeout(
-        &self,
+        &mut self,
         timeout: Duration,
     ) -> Result<(), ConnectionEvent> {
         // DNS idle timeout elapsed, or was it reset?
-        if self.idle_timer.idle_timeout_expired(timeout)
-            && !self.in_transaction.load(Ordering::SeqCst)
-        {
-            trace!("Timing out idle connection");
-            Err(ConnectionEvent::DisconnectWithoutFlush)
-        } else {
-            Ok(())
+        if !self.idle_timer.idle_timeout_expired(timeout) {
+            return Ok(());
         }
+
+        // RFC 7766 section 3: "A DNS server considers an established
+        // DNS-over-TCP session to be idle when it has sent responses to all
+        // the queries it has received on that connection."
+        //
+        // So a connection with requests that the service is still working on
+        // is not idle, start a new idle period instead of disconnecting.
+        if self.num_inflight_requests.load(Ordering::SeqCst) > 0
+            || self.in_transaction.load(Ordering::SeqCst)
+        {
+            self.idle_timer.reset_idle_timer();
+            return Ok(());
+        }
+
+        trace!("Timing out idle connection");
+        Err(ConnectionEvent::DisconnectWithoutFlush)
     }
 
     /// Process a received request message.
@@ -729,8 +747,12 @@ where
 
                         let mut dispatcher = self.request_dispatcher.clone();
                         let service = self.service.clone();
+                        let inflight_guard = InflightGuard::new(
+                            self.num_inflight_requests.clone(),
+                        );
                         tokio::spawn(async move {
-                            dispatcher.dispatch(request, service, ()).await
+                            dispatcher.dispatch(request, service, ()).await;
+                            drop(inflight_guard);
                         });
                     }
                 }
@@ -941,6 +963,25 @@ impl Display for ConnectionEvent {
                 write!(f, "Disconnect with flush")
             }
         }
+    }
+}
+
+//------------ InflightGuard -------------------------------------------------
+
+/// Counts a request as in-flight for as long as the guard lives.
+struct InflightGuard(Arc<AtomicUsize>);
+
+impl InflightGuard {
+    /// Increments the counter.
+    fn new(counter: Arc<AtomicUsize>) -> Self {
+        counter.fetch_add(1, Ordering::SeqCst);
+        Self(counter)
+    }
+}
+
+impl Drop for InflightGuard {
+    fn drop(&mut self) {
+        self.0.fetch_sub(1, Ordering::SeqCst);
     }
 }
 
